@@ -123,11 +123,15 @@ def keep_last_good_generation():
 
 def restore_last_good_generation(ctx):
     import shutil
-    if not os.path.isdir(LAST_GOOD):
+    # the generation kept by the last run on which the translator succeeded; failing that (a fresh copy of /verif whose
+    # very first run meets a tree the translator refuses) the generation from the pinned tree that is committed with the
+    # translator.  Either is used for the search only, never for the verdict.
+    source = LAST_GOOD if os.path.isdir(LAST_GOOD) and os.listdir(LAST_GOOD) else os.path.join(VERIF, "tools", "translate", "baseline_gen")
+    if not os.path.isdir(source):
         return False
     n = 0
-    for f in os.listdir(LAST_GOOD):
-        src, dst = os.path.join(LAST_GOOD, f), os.path.join(COQ_DIR, "Gen", f)
+    for f in os.listdir(source):
+        src, dst = os.path.join(source, f), os.path.join(COQ_DIR, "Gen", f)
         try:
             if not os.path.exists(dst) or open(src).read() != open(dst).read():
                 shutil.copyfile(src, dst)
